@@ -382,24 +382,12 @@ func VH_c12_seq_functions() {
 // distinguishable elements tie) and under a relation that is no order at all (incomparable elements, as NaN is
 // for floats): the iterator and the list give the element the eager fp.Seq computation gives.
 
-func lastBest(in []int, better func(a, b int) bool) (int, bool) {
-	if len(in) == 0 {
-		return 0, false
-	}
-	best := in[0]
-	for _, x := range in[1:] {
-		if !better(best, x) { // x replaces the running best unless the best is strictly better
-			best = x
-		}
-	}
-	return best, true
-}
-
 func VH_c12_min_max_by_key() {
 	in := zz.SliceInt("in", zz.Bound("inlen12m", 3, 4), 0, 0)
 	var ord fp.Ord[int]
 	var less func(a, b int) bool
-	if zz.Bool("lawful") {
+	lawful := zz.Bool("lawful")
+	if lawful {
 		key := func(x int) int { return zz.UFInt("key", x) }
 		less = func(a, b int) bool { return key(a) < key(b) }
 	} else {
@@ -421,14 +409,30 @@ func VH_c12_min_max_by_key() {
 	same := func(o fp.Option[int], v int, ok bool) bool {
 		return o.IsDefined() == ok && (!ok || o.Get() == v)
 	}
-	wmax, ok := lastBest(in, func(best, x int) bool { return less(x, best) })
-	wmin, _ := lastBest(in, func(best, x int) bool { return less(best, x) })
-	zz.Assert(same(seq.Max(fp.Seq[int](in), ord), wmax, ok), "seq.Max: the last of the maximal elements")
-	zz.Assert(same(iterator.Max(src(in), ord), wmax, ok), "iterator.Max = seq.Max, also among tied elements")
-	zz.Assert(same(list.Max(lsrc(in), ord), wmax, ok), "list.Max = seq.Max, also among tied elements")
-	zz.Assert(same(seq.Min(fp.Seq[int](in), ord), wmin, ok), "seq.Min: the last of the minimal elements")
-	zz.Assert(same(iterator.Min(src(in), ord), wmin, ok), "iterator.Min = seq.Min, also among tied elements")
-	zz.Assert(same(list.Min(lsrc(in), ord), wmin, ok), "list.Min = seq.Min, also among tied elements")
+	// the eager fp.Seq computation is the reference; of seq.Max/Min themselves only what their names say is asked
+	// (an element of the input that no element beats - under the lawful order), not which of several tied ones
+	smax, smin := seq.Max(fp.Seq[int](in), ord), seq.Min(fp.Seq[int](in), ord)
+	zz.Assert(smax.IsDefined() == (len(in) > 0) && smin.IsDefined() == (len(in) > 0), "seq.Max/Min: defined exactly on non-empty input")
+	if lawful && len(in) > 0 {
+		isIn := func(v int) bool {
+			for _, x := range in {
+				if x == v {
+					return true
+				}
+			}
+			return false
+		}
+		zz.Assert(isIn(smax.Get()) && isIn(smin.Get()), "seq.Max/Min: an element of the input")
+		for _, x := range in {
+			zz.Assert(!less(smax.Get(), x), "seq.Max: no element is greater")
+			zz.Assert(!less(x, smin.Get()), "seq.Min: no element is smaller")
+		}
+	}
+	sameO := func(o, w fp.Option[int]) bool { return same(o, w.OrZero(), w.IsDefined()) }
+	zz.Assert(sameO(iterator.Max(src(in), ord), smax), "iterator.Max = seq.Max, also among tied elements")
+	zz.Assert(sameO(list.Max(lsrc(in), ord), smax), "list.Max = seq.Max, also among tied elements")
+	zz.Assert(sameO(iterator.Min(src(in), ord), smin), "iterator.Min = seq.Min, also among tied elements")
+	zz.Assert(sameO(list.Min(lsrc(in), ord), smin), "list.Min = seq.Min, also among tied elements")
 }
 
 func VH_c12_sort_by_key() {
